@@ -76,6 +76,9 @@ class SObj(Obj):
     own: Tuple[str, ...] = ()
     redecorate: bool = True
     generic: bool = False  # class name(typing.Generic[T]); `TVar()` stands for T in the field / return types
+    # the (sub)class overrides __init__: the own fields named here are assigned by it when given
+    # ("pre": before calling super().__init__ with the other arguments, "post": after)
+    custom_init: Tuple[Tuple[str, str], ...] = ()
 
 
 @dataclass(frozen=True)
@@ -134,6 +137,9 @@ class Dyn(TD):
 
     t: TD
     conv: Conv
+
+
+_NOT_GIVEN = object()
 
 
 def _undefined():
@@ -254,6 +260,15 @@ def _rtype(td: TD, realm: Realm):
     raise TypeError(f"type variable not supported in {td}")
 
 
+def _mentions_ref(td) -> bool:
+    names: set = set()
+    M._ref_names(td, names)
+    return bool(names)
+
+
+_conv_counter = [0]
+
+
 def conversion_object(c: Conv, realm: Realm):
     from apischema.conversions import Conversion
 
@@ -263,6 +278,20 @@ def conversion_object(c: Conv, realm: Realm):
         return _fn(_realm, v)
 
     converter.__name__ = "conv_" + c.name
+    if _mentions_ref(c.src) or _mentions_ref(c.target):
+        # recursive types: the converter is a function of the realm module annotated with strings,
+        # resolved when the conversion is used (as in user code: `def summarize(node: "Node") -> Summary`)
+        for t in (c.src, c.target):
+            if not isinstance(t, Ref):
+                _prebuild(t, realm)
+        _conv_counter[0] += 1
+        name = f"_cv_{c.name}_{_conv_counter[0]}"
+        ns = realm.module.__dict__
+        ns["typing"] = typing
+        ns[name + "_impl"] = converter
+        src = f"def {name}(v: {M._type_string(c.src, realm)!r}) -> {M._type_string(c.target, realm)!r}:\n    return {name}_impl(v)\n"
+        exec(src, ns)
+        return ns[name]
     return Conversion(converter, source=realize(c.src, realm), target=realize(c.target, realm))
 
 
@@ -395,6 +424,19 @@ def _realize_sobj(td: SObj, realm: Realm):
         ns[f"_t_{td.name}_{f.name}"] = tp
         ns[f"_f_{td.name}_{f.name}"] = kw
         lines.append(f"    {f.name}: _t_{td.name}_{f.name} = dataclasses.field(**_f_{td.name}_{f.name})")
+    if td.custom_init:
+        if td.base is None:
+            raise TypeError("custom_init needs a base class")
+        ns["_NOT_GIVEN"] = _NOT_GIVEN
+        names = [n for n, _ in td.custom_init]
+        lines.append("    def __init__(self, *args, " + ", ".join(f"{n}=_NOT_GIVEN" for n in names) + ", **kwargs):")
+        for n, when in td.custom_init:
+            if when == "pre":
+                lines += [f"        if {n} is not _NOT_GIVEN:", f"            self.{n} = {n}"]
+        lines.append("        super().__init__(*args, **kwargs)")
+        for n, when in td.custom_init:
+            if when == "post":
+                lines += [f"        if {n} is not _NOT_GIVEN:", f"            self.{n} = {n}"]
     after: List[str] = []
     inherited = {m.name for m in getattr(realm.descs.get(td.base), "serialized", ())} if td.base else set()
     for sm in td.serialized:
@@ -478,6 +520,35 @@ def tracked(v) -> Optional[set]:
         return set(fields_set(v))
     except TypeError:
         return None
+
+
+def tracks(td, realm: Realm) -> bool:
+    """instances of the described class carry a tracked set (the class or a base is decorated)"""
+    while isinstance(td, Obj):
+        if td.fields_set:
+            return True
+        td = realm.descs.get(getattr(td, "base", None))
+    return False
+
+
+def always_set(td: Obj) -> set:
+    """default_as_set and init=False fields are always considered set (C15 statement)"""
+    return {f.name for f in td.fields if not f.init or getattr(f, "default_as_set", False)}
+
+
+def expect_set(realm: Realm, obj, names) -> None:
+    """record the set of fields that the documented rules give for a value built by the generator
+    (constructor arguments + default_as_set + init=False + assignments, then set_fields / unset_fields)"""
+    reg = realm.__dict__.setdefault("expected_sets", {})
+    reg[id(obj)] = (obj, set(names))
+
+
+def expected_tracked(realm: Realm, obj) -> Optional[set]:
+    """the documented tracked set when the value was built by the generator, else the observed one"""
+    e = realm.__dict__.get("expected_sets", {}).get(id(obj))
+    if e is not None and e[0] is obj:
+        return set(e[1])
+    return tracked(obj)
 
 
 def strip(td: TD, realm: Realm) -> TD:
@@ -583,7 +654,7 @@ class RefSer:
         if o.exclude_unset:
             # "unset" is defined for the instances which carry a tracked set (with_fields_set classes
             # and their subclasses): fields_set(obj) is part of the value
-            fs = tracked(obj)
+            fs = expected_tracked(self.realm, obj)
             if fs is not None and f.name not in fs:
                 return True
         return False
